@@ -121,3 +121,29 @@ def U_series(gammas, bs):
         for k in range(1, n + 1):  # U' = ell' U
             U.append(sum(j * ell[j] * U[k - j] for j in range(1, k + 1)) / k)
         return R, U
+
+
+_AMP_CACHE = {}
+
+
+def partial_fraction_amp(k, bs):
+    """Floating-point conditioning of *any* partial-fraction closed form of int a^k/beta(a) da:
+    (1/beta_0) * ( [k==1] + sum_roots |r^(k-2) / P'(r)| ),  P(a) = 1 + b_1 a + b_2 a^2 + ...
+
+    The absolute rounding error of such a closed form is ~ eps * this number (each logarithm of a
+    ratio carries an absolute error ~eps), independently of how close a0 and a1 are."""
+    key = (k, tuple(float(b) for b in bs))
+    if key in _AMP_CACHE:
+        return _AMP_CACHE[key]
+    with mp.workdps(DPS):
+        bn = [mp.mpf(b) / mp.mpf(bs[0]) for b in bs]  # 1, b1, b2..
+        amp = mp.mpf(1 if k == 1 else 0)
+        if len(bn) > 1:
+            rts = mp.polyroots(list(reversed(bn)), maxsteps=200, extraprec=60)
+            for r in rts:
+                dp = sum(i * bn[i] * r ** (i - 1) for i in range(1, len(bn)))
+                amp += abs(r ** (k - 2) / dp)
+        val = float(amp / mp.mpf(bs[0]))
+    if len(_AMP_CACHE) < 20000:
+        _AMP_CACHE[key] = val
+    return val
